@@ -442,4 +442,22 @@ def run(ctx, prog):
     from rules.C17 import LANES as _LANES
     n6 = _cover.kernel_partitions(ctx, prog, 'C16.R6', _LANES)
     ctx.floor('C16.R6', 'kernel × slice-parameter partitions', n6, 21, '12 kernels: 9 with two slices, 3 with one')
+    # ------------------------------------------------------------------ R7 every vector of a batch becomes a graph node
+    ctx.rule('C16.R7', 'route independence (bulk build, compaction rebuild and recovery all go through HnswVectorIndex::parallel_insert_batch_impl; the online route inserts one '
+                       'vector at a time): every vector of the batch reaches the graph — each backend insert call in that function receives the batch slice itself, or the '
+                       'elements of an exhaustive chunking of it (`chunks`, whose last chunk takes the remainder; `chunks_exact` drops it). A vector left out is counted, '
+                       'stored and fetchable by id but has no node: recall of the rebuilt index falls while the online route keeps 1.0. The recall figure itself is not decided')
+    pb = ctx.body('C16.R7', 'HnswVectorIndex::parallel_insert_batch_impl')
+    if pb is not None:
+        po = flow.Origin(pb)
+        ins = [c for c in pb.calls if c.callee and re.search(r'AnnBackend::(sequential|parallel)_insert_slice$', c.orig or c.callee)]
+        if not ins:
+            ctx.missing('C16.R7', 'parallel_insert_batch_impl: the backend insert calls')
+        for k7, c in enumerate(ins):
+            r7 = flow.render(po.of_operand(c.args[1])) if len(c.args) > 1 else ''
+            whole = r7 == 'arg:data'
+            chunked = re.match(r'^[^()]*::next\((?:&mut )?slice::chunks\(arg:data, .*\)\)(@Some→Some\.0)?$', r7) is not None and 'chunks_exact' not in r7
+            ctx.inst('C16.R7', pb.short, 'backend insert #%d receives the whole batch (or an exhaustive chunking of it)' % k7, whole or chunked,
+                     '%s receives %s%s' % (flow.short(c.orig or c.callee), r7[:140], '' if (whole or chunked) else ' — not the batch slice itself: vectors outside it never become graph nodes although they are counted'))
+        ctx.floor('C16.R7', 'backend insert calls of the batch path', len(ins), 2, 'sequential (small batches) and parallel')
     ctx.stat('functions_analysed', len(R))
